@@ -5,7 +5,6 @@ import itertools
 import math
 import os
 import subprocess
-import types
 from fractions import Fraction
 
 import mpmath as mp
@@ -96,12 +95,23 @@ def cpp_decide(ctx, m, k, y, S):
     return line == "1"
 
 
-def py_decide(k, y, S):
-    from formak import python
+_tiny = {}
 
-    stub = types.SimpleNamespace(config=python.Config(innovation_filtering=k))
+
+def py_decide(k, y, S):
+    """python remove_innovation(innovation, S_inv) of a REAL filter built with Config(innovation_filtering=k) through the
+    public compile_ekf (a one-state, one-sensor filter; 4 ms) — no stand-in for self, so the call depends on nothing but
+    the public signature"""
+    from formak import python, ui
+
+    if "model" not in _tiny:
+        x, dt = ui.Symbol("x"), ui.Symbol("dt")
+        _tiny["model"] = (ui.Model(dt=dt, state={x}, control=set(), state_model={x: x}), x)
+    model, x = _tiny["model"]
+    f = python.compile_ekf(model, process_noise={}, sensor_models={"s": {"r": x}}, sensor_noises={"s": {"r": 1.0}},
+                           config=python.Config(innovation_filtering=k))
     yv = np.array(y, dtype=float).reshape((-1, 1))
-    return bool(python.ExtendedKalmanFilter.remove_innovation(stub, yv, np.array(S, dtype=float)))
+    return bool(f.remove_innovation(yv, np.array(S, dtype=float)))
 
 
 def exact_nis(y, S):
